@@ -9,7 +9,8 @@
    every theorem holds for all of them. *)
 From Coq Require Import List NArith ZArith QArith Bool String.
 From Qryn Require Import model.TqSql model.Traceql model.TraceqlPlan model.TraceqlSem
-     proofs.TraceqlBitsetProofs proofs.TraceqlAnalyzeProofs proofs.TraceqlEvalProofs proofs.TraceqlSelectorProofs.
+     proofs.TraceqlBitsetProofs proofs.TraceqlAnalyzeProofs proofs.TraceqlEvalProofs proofs.TraceqlSelectorProofs
+     proofs.TraceqlWfProofs.
 Import ListNotations.
 Open Scope string_scope.
 
@@ -88,3 +89,13 @@ Theorem rounding_is_the_only_gap : forall re_match parse_float (e : attr_exp) ro
   exp_sem re_match parse_float true e rows = exp_sem re_match parse_float false e rows.
 Proof. intros. now apply exp_sem_round. Qed.
 Print Assumptions rounding_is_the_only_gap.
+
+(* 7. Well-formedness: every statement that Plan / PlanTagsV2 / PlanValuesV2 followed by Process build --
+   for every script (selectors, chains, aggregators, {} forms), mode, context with named tables, and call --
+   has no empty and/or/IN/tuple/bit-set/select list, only binary comparisons, only named identifiers and
+   WITH references.  (Before 64acb55 this was false: {duration > 1s} rendered "... and ()".  The same
+   predicate plus alias distinctness, wf_sel, is run on every observed statement.) *)
+Theorem traceql_sql_wellformed : forall (c : ctx) (q : script) (m : mode) (n : nat) (s : select),
+  ctx_ok c = true -> plan q m c n = Ok s -> wfc_sel s = true.
+Proof. intros c q m n s Hc H. exact (plan_wfc c Hc q m n s H). Qed.
+Print Assumptions traceql_sql_wellformed.
